@@ -250,7 +250,7 @@ fn main() {
         quiet_panics();
     }
     let mut sink = Sink::new(&args.out);
-    let mut emit = |sink: &mut Sink, line: String, tags: String| {
+    let emit = |sink: &mut Sink, line: String, tags: String| {
         let (a, fails) = run_case(&line);
         let mut tags = tags;
         for (what, tag) in fails {
